@@ -31,6 +31,8 @@ type c14Src struct {
 	mcPort       int
 	datagramSize int
 	left2        int // receive-side stream offset (mcast-write)
+	empty        []bool // datagram i is empty (reads of it complete at once with n=0 or EOF)
+	recvIdx      int
 }
 
 func runC14(c *vf.Case) {
@@ -131,9 +133,17 @@ func runC14(c *vf.Case) {
 			s.datagramSize = 24
 			if k == "udp-readfrom" {
 				sa, _ := syscall.Getsockname(o.Raw)
-				for i := 0; i < s.left; i++ {
+				emptyBurst := r.Chance(1, 4) // a run of empty datagrams: each read of one completes at once without data
+				for i, full := 0, 0; i < s.left; i++ {
+					if r.Chance(1, 6) || (emptyBurst && i >= 10 && i < 60) {
+						s.empty = append(s.empty, true)
+						_ = syscall.Sendto(o.Peer, nil, 0, sa)
+						continue
+					}
+					s.empty = append(s.empty, false)
 					d := make([]byte, s.datagramSize)
-					vf.GenFill(d, s.gen, i*s.datagramSize)
+					vf.GenFill(d, s.gen, full*s.datagramSize)
+					full++
 					_ = syscall.Sendto(o.Peer, d, 0, sa)
 				}
 			}
@@ -156,10 +166,19 @@ func runC14(c *vf.Case) {
 			s.left = 100
 			s.datagramSize = 24
 			if k == "mcast-read" {
-				for i := 0; i < s.left; i++ {
+				emptyBurst := r.Chance(1, 4)
+				to := &syscall.SockaddrInet4{Addr: [4]byte{127, 0, 0, 1}, Port: p.LocalAddr().Port}
+				for i, full := 0, 0; i < s.left; i++ {
+					if r.Chance(1, 6) || (emptyBurst && i >= 10 && i < 60) {
+						s.empty = append(s.empty, true)
+						_ = syscall.Sendto(peer, nil, 0, to)
+						continue
+					}
+					s.empty = append(s.empty, false)
 					d := make([]byte, s.datagramSize)
-					vf.GenFill(d, s.gen, i*s.datagramSize)
-					_ = syscall.Sendto(peer, d, 0, &syscall.SockaddrInet4{Addr: [4]byte{127, 0, 0, 1}, Port: p.LocalAddr().Port})
+					vf.GenFill(d, s.gen, full*s.datagramSize)
+					full++
+					_ = syscall.Sendto(peer, d, 0, to)
 				}
 			}
 		}
@@ -172,7 +191,17 @@ func runC14(c *vf.Case) {
 	L := min(total, r.Range(100, 2000))
 	c.Logf("chain of %d operations over %v", L, chosen)
 	done := 0
-	zeroLen := 0
+	zeroLen, emptyReads, refusedFileOps := 0, 0, 0
+	// deepest nesting at which a completion callback ran, separately for the callbacks of regular-file operations
+	// refused at the bound (they run inside the start call, one level above the bound: part of the listed finding)
+	deepest, deepestRefusedFile := 0, 0
+	noteDepth := func(refusedFile bool) {
+		if refusedFile {
+			deepestRefusedFile = max(deepestRefusedFile, w.Depth)
+		} else {
+			deepest = max(deepest, w.Depth)
+		}
+	}
 	deferredHops := map[string]int{}
 	transitions := map[string]bool{}
 	lastKind := ""
@@ -209,6 +238,13 @@ func runC14(c *vf.Case) {
 				if op.Started || atBound {
 					key = "deferred-hop-result-differs/" + s.kind
 				}
+				if (s.kind == "file-read" || s.kind == "file-write") && atBound {
+					// the listed finding (epoll refuses regular files): recorded once per case without ending the case,
+					// so that the rest of the chain is still monitored; the refused operation moved no bytes
+					c.SoftFailf(key, "%s op%d (started at the dispatch bound=%v, deferred=%v) completed with %v instead of the result it would have had inline", s.kind, op.ID, atBound, op.Started, op.Err)
+					refusedFileOps++
+					return
+				}
 				c.Failf(key, "%s op%d (started at the dispatch bound=%v, deferred=%v) completed with %v instead of the result it would have had inline", s.kind, op.ID, atBound, op.Started, op.Err)
 				return
 			}
@@ -238,6 +274,7 @@ func runC14(c *vf.Case) {
 				zeroLen++
 			}
 			w.NextOnDone = func(op *sim.Op) {
+				noteDepth(s.kind == "file-read" && atBound && op.Err != nil)
 				if len(op.Buf) > 0 {
 					checkStream(op, true)
 				}
@@ -251,6 +288,7 @@ func runC14(c *vf.Case) {
 				zeroLen++
 			}
 			w.NextOnDone = func(op *sim.Op) {
+				noteDepth(s.kind == "file-write" && atBound && op.Err != nil)
 				if len(op.Buf) > 0 {
 					checkStream(op, false)
 				}
@@ -259,6 +297,7 @@ func runC14(c *vf.Case) {
 			w.StartStream(s.o, 1, false, size, sim.BNone, nil, false)
 		case "accept":
 			w.NextOnDone = func(op *sim.Op) {
+				noteDepth(false)
 				if op.Err != nil || op.Accepted == nil {
 					c.Failf("deferred-hop-result-differs/accept", "accept op%d (deferred=%v) completed with err=%v conn=%v", op.ID, op.Started, op.Err, op.Accepted != nil)
 					return
@@ -272,6 +311,21 @@ func runC14(c *vf.Case) {
 				dir = 1
 			}
 			w.NextOnDone = func(op *sim.Op) {
+				noteDepth(false)
+				if dir == 0 {
+					idx := s.recvIdx
+					s.recvIdx++
+					if idx < len(s.empty) && s.empty[idx] {
+						// an empty datagram: whatever the read reports for it, it carries no bytes and the chain goes on
+						if op.N != 0 {
+							c.Failf("deferred-hop-result-differs/udp-readfrom", "read of an empty datagram reported n=%d err=%v", op.N, op.Err)
+							return
+						}
+						emptyReads++
+						finish(s, op.Started, prevKind)
+						return
+					}
+				}
 				if dir == 0 && op.Err == nil && op.N != s.datagramSize {
 					c.Failf("deferred-hop-result-differs/udp-readfrom", "datagram read n=%d", op.N)
 					return
@@ -286,10 +340,22 @@ func runC14(c *vf.Case) {
 			calls := 0
 			s.mc.AsyncRead(buf, func(err error, n int, _ netip.AddrPort) {
 				w.EnterCB()
+				noteDepth(false)
 				calls++
 				deferred := returned
+				idx := s.recvIdx
+				if calls == 1 {
+					s.recvIdx++
+				}
 				if calls > 1 {
 					c.Failf("callback-invoked-twice/mcast-read", "multicast read callback invoked %d times", calls)
+				} else if idx < len(s.empty) && s.empty[idx] {
+					if n != 0 {
+						c.Failf("deferred-hop-result-differs/mcast-read", "read of an empty datagram reported n=%d err=%v", n, err)
+					} else {
+						emptyReads++
+						finish(s, deferred, prevKind)
+					}
 				} else if err != nil || n != s.datagramSize {
 					c.Failf("deferred-hop-result-differs/mcast-read", "multicast read (deferred=%v) completed with err=%v n=%d", deferred, err, n)
 				} else {
@@ -313,6 +379,7 @@ func runC14(c *vf.Case) {
 			calls := 0
 			s.mc.AsyncWrite(buf, netip.AddrPortFrom(netip.AddrFrom4([4]byte{127, 0, 0, 1}), uint16(s.mcPort)), func(err error, n int) {
 				w.EnterCB()
+				noteDepth(false)
 				deferred := returned
 				calls++
 				if calls > 1 {
@@ -370,8 +437,11 @@ func runC14(c *vf.Case) {
 		if w.IOC.Dispatched != 0 {
 			c.Failf("dispatched-counter-not-zero-after-unwinding", "IO.Dispatched=%d after the chain finished", w.IOC.Dispatched)
 		}
-		if w.MaxDepth > limit+1 {
-			c.Failf("nesting-deeper-than-dispatch-limit", "%d completion callbacks were nested on the stack (limit %d + the one dispatched by the poller)", w.MaxDepth, limit)
+		if deepest > limit+1 {
+			c.Failf("nesting-deeper-than-dispatch-limit", "%d completion callbacks were nested on the stack (limit %d + the one dispatched by the poller)", deepest, limit)
+		}
+		if deepestRefusedFile > limit+1 {
+			c.SoftFailf("nesting-deeper-than-dispatch-limit/regular-file-refused-at-the-bound", "a regular-file operation started at the bound was refused by epoll and its callback ran inside the start call, at nesting depth %d (limit %d + the one dispatched by the poller)", deepestRefusedFile, limit)
 		}
 	}
 	// Operations that complete immediately WITH AN ERROR unwind the depth accounting like successful ones: after the
@@ -454,9 +524,12 @@ func runC14(c *vf.Case) {
 			}
 		}
 	}
-	c.Max("max_depth_seen", int64(w.MaxDepth))
+	c.Max("max_depth_seen", int64(deepest))
+	c.Max("max_depth_of_a_refused_regular_file_callback", int64(deepestRefusedFile))
+	c.Count("regular_file_operations_refused_at_the_bound", refusedFileOps)
 	c.Count("chain_operations", done)
 	c.Count("zero_length_operations", zeroLen)
+	c.Count("reads_of_empty_datagrams", emptyReads)
 	hops := 0
 	for k, v := range deferredHops {
 		c.Count("deferred_hops_"+k, v)
